@@ -227,6 +227,9 @@ def run_one(choices, params):
                 if extra and extra[0][0] == "removed":
                     raise core.Violation("notification-differs/spurious-removed", "on_service_removed fired for %r which was not registered; "
                                          "server log %r, model %r" % (extra[0][1:], a[-6:], b[-6:]), sig="spurious-removed")
+                if not extra and not missing:
+                    # same notifications, different order
+                    raise core.Violation("notification-differs/order", "server notifications %r, model %r" % (a[-8:], b[-8:]), sig="order")
                 kindn = (extra or missing)[0][0]
                 raise core.Violation("notification-differs/" + kindn, "server notifications %r, model %r (extra %r, missing %r)" % (
                     a[-8:], b[-8:], extra[:3], missing[:3]), sig=kindn)
